@@ -948,7 +948,19 @@ func runCase(w *tr.Writer, seed uint64, idx int, focus string) {
 		tags["level-triggered"] = true
 	}
 	for t := range tags {
-		w.Tag(t)
+		// a case is non-trivial when it reached back-pressure (EAGAIN), an asynchronous callback,
+		// a datagram callback, an injected fault or a named scenario; mode and open/traffic classes are only counted
+		if strings.HasPrefix(t, "eagain-") || t == "async-callback" || t == "cb-udp" {
+			w.Tag(t)
+		} else {
+			w.Note(t)
+		}
+	}
+	if len(rec.injected) > 0 {
+		w.Tag("fault-injected")
+	}
+	if cfg.scenario != "" {
+		w.Tag("scenario")
 	}
 	w.Hist("mode-" + map[bool]string{true: "et", false: "lt"}[cfg.et] + "-" + cfg.proto + map[bool]string{true: "-reactor", false: "-reuseport"}[rec.reactor])
 	w.End()
